@@ -246,9 +246,16 @@ EXTRA6 = {'C02': ' Traits whose class defines both magic handler names; a wildca
 
 
 EXTRA7 = {'C01': ' Extras values include datetime / time subclasses.', 'C02': ' Handlers may be registered twice (alternating priority) and a handler plus an observer may come and go on every trait before the history.', 'C03': ' Stage lazy: string-named classes resolved through different copies of one trait (listener object, plain object, class trait).', 'C04': ' Containers declared with items=False and with maxlen=0.', 'C05': ' Members found only by identity (NaN, never-equal object) and iterables that fail part-way.', 'C10': ' comparison_mode=none defaults under observers; one CTrait object shared by two attributes.', 'C11': " Falsy delegate objects and targets compared by 'none'.", 'C12': ' pop with the stored object as default; a refused quiet assignment.', 'C15': ' Keyword-like names (in, is, not); the exhaustive alphabet has 15 symbols.', 'C16': ' Another extended name that comes and goes; links assigned already-populated objects.', 'C17': ' A lazily imported offer module may register offers while it is imported.', 'C18': ' ctrait-api also: a validated-Property base and a temporary middle delegate with a prefixed second hop.', 'C19': ' Containers with non-empty declared defaults and their deletion.'}
+EXTRA8 = {'C02': ' Traits may be re-added on the instance before the history.',
+          'C04': ' Index keys that are not ints and the keyword form of update.',
+          'C10': ' Stage solo (metamorphic): what an instance of a class with dynamic Range / Enum / method defaults observes in a history interleaved with other instances equals what it observes alone; a default method runs only while nothing is stored, also after a first read that failed late.',
+          'C11': " One-character 'p*' prefixes; the link attribute may itself be deferred to a holder object.",
+          'C12': ' Batches whose later element is refused; a self-removing notifier ahead of the property observers.'}
 
 
 def main():
+    for pid, extra in EXTRA8.items():
+        EXTRA7[pid] = EXTRA7.get(pid, "") + extra
     for pid, extra in EXTRA7.items():
         EXTRA6[pid] = EXTRA6.get(pid, "") + extra
     for pid, extra in EXTRA6.items():
